@@ -368,14 +368,40 @@ func shapes(thorough bool) []shapeT {
 	}
 	s = append(s, shapeT{"chain-4", []int{-1, 0, 1, 2, 3}}, shapeT{"chain-5", []int{-1, 0, 1, 2, 3, 4}},
 		shapeT{"tree-2x2", []int{-1, 0, 0, 1, 1, 2}})
+	if !thorough {
+		return s
+	}
+	// thorough: every pivot tree with 2..6 agents (every parent vector with parent[i] < i:
+	// chains, stars and everything between; 1+2+6+24+120 shapes)
+	s = nil
+	var rec func(p []int, n int)
+	rec = func(p []int, n int) {
+		if len(p) == n {
+			name := "tree"
+			for _, x := range p[1:] {
+				name += fmt.Sprintf("-%d", x)
+			}
+			s = append(s, shapeT{name, append([]int{}, p...)})
+			return
+		}
+		for x := 0; x < len(p); x++ {
+			rec(append(p, x), n)
+		}
+	}
+	for n := 2; n <= 6; n++ {
+		rec([]int{-1}, n)
+	}
 	return s
 }
+
+// fullAssignments: thorough assigns every ordered choice of distinct ids up to this many agents.
+var fullAssignments = 4
 
 // assignments: every ordered choice of n distinct ids from the domain for n<=4, a
 // covering set (rotations + reversals) beyond.
 func assignments(n int) [][]uint32 {
 	var out [][]uint32
-	if n <= 4 {
+	if n <= fullAssignments {
 		var rec func(cur []uint32, used uint)
 		rec = func(cur []uint32, used uint) {
 			if len(cur) == n {
@@ -411,6 +437,10 @@ func Run(r *ev.Run) {
 		ids []uint32
 	}
 	var jobs []job
+	if r.Thorough() {
+		fullAssignments = 6
+		r.Rule = "thorough: EVERY pivot tree of 2..6 agents (153 parent vectors), every ordered id assignment (all 6 ids); otherwise as quick: " + r.Rule
+	}
 	for _, sh := range shapes(r.Thorough()) {
 		as := assignments(len(sh.parents))
 		for _, a := range as {
